@@ -141,7 +141,7 @@ def witness : List Ev := [.start 0 0, .start 1 0, .reply 0 true, .reply 1 true]
 theorem unlocked_violates : ¬ Statement { locked := false, resetOnRegister := false } := by
   intro h
   have hw : run { locked := false, resetOnRegister := false } (init 0) witness =
-      some { version := 1, owner := some 1, accepted := [⟨0, 0⟩, ⟨1, 0⟩], engineLog := [1, 1],
+      some { version := 1, owner := some 1, accepted := [⟨0, 0, 0⟩, ⟨1, 0, 0⟩], engineLog := [1, 1],
              results := [(0, .accepted 1), (1, .accepted 1)] } := by decide
   have := (h 0 _ (reach_run witness Reach.init hw)).1
   revert this
@@ -156,7 +156,7 @@ def reconnectWitness : List Ev := [.start 0 0, .reply 0 true, .disconnect, .regi
 theorem version_reset_violates : ¬ Statement { locked := true, resetOnRegister := true } := by
   intro h
   have hw : run { locked := true, resetOnRegister := true } (init 0) reconnectWitness =
-      some { version := 1, reconnects := 1, owner := some 1, accepted := [⟨0, 0⟩, ⟨1, 0⟩], engineLog := [1, 1],
+      some { version := 1, reconnects := 1, owner := some 1, accepted := [⟨0, 0, 0⟩, ⟨1, 0, 0⟩], engineLog := [1, 1],
              results := [(0, .accepted 1), (1, .accepted 1)] } := by decide
   have := (h 0 _ (reach_run reconnectWitness Reach.init hw)).1
   revert this
@@ -166,11 +166,39 @@ theorem version_reset_violates : ¬ Statement { locked := true, resetOnRegister 
 stale save after the reconnect is rejected. -/
 example : run fixed (init 0) witness = none := by decide   -- `reply 1` is never enabled: save 1 has no round trip
 example : run fixed (init 0) [.start 0 0, .start 1 0, .reply 0 true] =
-    some { version := 1, owner := some 0, accepted := [⟨0, 0⟩], engineLog := [1],
+    some { version := 1, owner := some 0, accepted := [⟨0, 0, 0⟩], engineLog := [1],
            results := [(0, .accepted 1), (1, .rejected)] } := by decide
 example : run fixed (init 0) [.start 0 0, .reply 0 true, .disconnect, .register, .start 1 0] =
-    some { version := 2, reconnects := 1, accepted := [⟨0, 0⟩], engineLog := [1],
+    some { version := 2, reconnects := 1, content := none, accepted := [⟨0, 0, 0⟩], engineLog := [1],
            results := [(0, .accepted 1), (1, .rejected)] } := by decide
+
+/-- **Acceptance does not look at the content.**  Whatever a save says — also exactly what the method says already —
+if the engine answers ok to the round trip of a live request, the save is accepted and the version goes up by exactly
+one; and a request is refused or queued by its base version alone. -/
+theorem accepted_whatever_the_content {v0 : Nat} {p : Bool} {s s' : State} {id : Nat} {r : Req}
+    (hr : Reach (fixed p) v0 s) (hf : s.awaiting.find? (·.id == id) = some r)
+    (h : step (fixed p) s (.reply id true) = some s') :
+    s'.accepted = s.accepted ++ [r] ∧ s'.version = s.version + 1 ∧ s'.content = some r.content := by
+  have g := reach_good hr
+  simp only [step, fixed, hf] at h
+  split at h
+  · cases h
+  · rename_i hen
+    cases h
+    have hlive : ¬ (s.doomed.contains id = true) := by
+      simp only [Bool.true_and, Bool.or_eq_true, Bool.not_eq_true', not_or] at hen
+      exact hen.1
+    have hbase : r.base = s.version := by
+      rcases g.cur r (find_mem hf) with hb | hd
+      · exact hb
+      · exact absurd (by simpa [find_id hf] using hd) hlive
+    simp [hbase]
+
+/-- a save that changes nothing is accepted like any other and raises the version; the save queued behind it on the
+same base is rejected -/
+example : run fixed (init 3) [.start 0 3 0, .start 1 3 5, .reply 0 true] =
+    some { version := 4, owner := some 0, content := some 0, accepted := [⟨0, 3, 0⟩], engineLog := [4],
+           results := [(0, .accepted 4), (1, .rejected)] } := by decide
 
 /-- Nobody waits for a free lock (the hand-over on release leaves no waiter behind). -/
 theorem no_waiter_on_free_lock {v0 : Nat} {p : Bool} {s : State} (h : Reach (fixed p) v0 s) (hf : s.awaiting = []) :
@@ -199,12 +227,12 @@ theorem c31 (precheck : Bool) :
 
 /-- Non-vacuity: a reachable state of the repaired system with an accepted, a rejected and a failed save, a
 reconnect under a pending save, and a later accepted save. -/
-example : ∃ s, Reach (fixed) 3 s ∧ s.version = 6 ∧ s.accepted = [⟨0, 3⟩, ⟨3, 5⟩] ∧
+example : ∃ s, Reach (fixed) 3 s ∧ s.version = 6 ∧ s.accepted = [⟨0, 3, 0⟩, ⟨3, 5, 0⟩] ∧
     s.results = [(1, .failed), (0, .accepted 4), (2, .rejected), (4, .failed), (3, .accepted 6)] := by
   have hw : run fixed (init 3)
       [.start 1 3, .start 0 3, .start 2 3, .reply 1 false, .reply 0 true, .start 4 4, .disconnect, .register,
        .reply 4 false, .start 3 5, .reply 3 true] =
-      some { version := 6, reconnects := 1, owner := some 3, accepted := [⟨0, 3⟩, ⟨3, 5⟩], engineLog := [4, 4, 5, 6],
+      some { version := 6, reconnects := 1, owner := some 3, accepted := [⟨0, 3, 0⟩, ⟨3, 5, 0⟩], engineLog := [4, 4, 5, 6],
              results := [(1, .failed), (0, .accepted 4), (2, .rejected), (4, .failed), (3, .accepted 6)] } := by decide
   exact ⟨_, reach_run _ Reach.init hw, rfl, rfl, rfl⟩
 
